@@ -259,6 +259,7 @@ func init() {
 		c.rulesC20()
 		c.rulesC20deep()
 		c.rulesR3ask()
+		c.rulesR3bounds()
 	})
 }
 
